@@ -178,7 +178,7 @@ theorem extractFeatureSet_equiv {c c' : Config} (hc : CfgEquiv c c') (ok : ExtOK
     (feature : Str) (cate : Nat) :
     Rel FsRel (extractFeatureSet c feature cate) (extractFeatureSet c' feature cate) := by
   unfold extractFeatureSet
-  cases ofLex (LexCsv.parseCsvRowBytes feature) with
+  cases ofLex (LexCsv.parseCsvRowBytes true feature) with
   | err => trivial
   | panic => trivial
   | ok features =>
